@@ -152,6 +152,7 @@ func main() {
 			}
 		}
 		if bad > 0 {
+			os.RemoveAll(E.WorkDir)
 			os.Exit(1)
 		}
 	case "lemmas":
@@ -193,12 +194,17 @@ func main() {
 			}
 		}
 		if bad > 0 {
+			os.RemoveAll(E.WorkDir)
 			os.Exit(1)
 		}
 	case "baseline":
-		os.Exit(E.writeBaseline())
+		rc := E.writeBaseline()
+		os.RemoveAll(E.WorkDir)
+		os.Exit(rc)
 	case "check":
-		os.Exit(E.checkProperty(*prop, *tier))
+		rc := E.checkProperty(*prop, *tier)
+		os.RemoveAll(E.WorkDir)
+		os.Exit(rc)
 	default:
 		fmt.Fprintln(os.Stderr, "unknown command", cmd)
 		os.Exit(2)
